@@ -116,6 +116,19 @@ def literal_wrapper_published_before_complete_within_one_line():
     edit(T, "def _wrap_string_literal(string_value, parse_function):\n    result = _StringLiteral(string_value)\n    result._parse_function = parse_function\n    return result",
          "_literals = {}\n\n\ndef _wrap_string_literal(string_value, parse_function):\n    result = _literals.get(parse_function)\n    if result is None:\n        _literals.setdefault(parse_function, _StringLiteral(string_value))._parse_function = parse_function\n        result = _literals[parse_function]\n    return result")
 
+@mutant
+def driver_under_a_non_reentrant_module_lock():
+    # "make parse thread-safe": one plain lock per grammar family around the driver -- a nested parse started from
+    # inline Python waits for the lock its own enclosing call holds
+    edit(T, "def _run(${ctx}text, pos, start, fullparse):\n    memo = {}\n", "import threading as _threading\n_run_lock = _threading.Lock()\n\n\ndef _run(${ctx}text, pos, start, fullparse):\n    with _run_lock:\n        return _run_locked(${ctx}text, pos, start, fullparse)\n\n\ndef _run_locked(${ctx}text, pos, start, fullparse):\n    memo = {}\n")
+
+@mutant
+def driver_lock_not_released_when_user_code_raises():
+    # a re-entrant lock, acquired at entry and released on the two regular ways out -- not when inline Python raises
+    edit(T, "def _run(${ctx}text, pos, start, fullparse):\n    memo = {}\n", "import threading as _threading\n_run_lock = _threading.RLock()\n\n\ndef _run(${ctx}text, pos, start, fullparse):\n    _run_lock.acquire()\n    memo = {}\n")
+    edit(T, "    if result[0]:\n        return _finalize_parse_info(text, result[1], result[2], fullparse)\n    else:\n        pos = result[2]\n        message = result[1](text, pos)",
+         "    _run_lock.release()\n    if result[0]:\n        return _finalize_parse_info(text, result[1], result[2], fullparse)\n    else:\n        pos = result[2]\n        message = result[1](text, pos)")
+
 if __name__ == '__main__':
     fresh()
     only = sys.argv[2:] 
